@@ -258,6 +258,8 @@ func xGenSchema(r *Rng) *xSchema {
 	pool("i0", xNamed("Int"))
 	pool("i1", xNonNull(xNamed("Int")))
 	pool("f0", xNamed("Float"))
+	pool("f1", xNonNull(xNamed("Float")))
+	pool("lf", xList(xNamed("Float")))
 	pool("b0", xNamed("Boolean"))
 	pool("id0", xNamed("ID"))
 	pool("e0", xNamed("E0"))
